@@ -19,7 +19,7 @@ BOUNDS = {"quick": {"requests": 4, "modes": 4, "gap_s": "[0,4] real", "hold_s": 
 ASSUMPTIONS = ["non-game modes (game modes need a player: C11 covers device state across players)", "bounded liveness: start/stop must complete within 6 s of virtual time",
                "registry snapshot ignores handler keys (uuids) and compares (event, handler qualname, priority, kwargs) multisets"]
 BUDGET = {"quick": 100, "thorough": 600}
-REQ = ["start_ev", "stop_ev", "start_direct", "stop_direct", "wait", "restart_from_stopped", "stop_in_starting", "delayed_control", "switch_hit"]
+REQ = ["start_ev", "stop_ev", "start_direct", "stop_direct", "wait", "restart_from_stopped", "stop_in_starting", "delayed_control", "switch_hit", "start_prio", "start_other"]
 
 
 def setup(part):
@@ -88,6 +88,7 @@ def body(S, t, part):
                 t.loop.call_later(hold, queue.clear)
         m.events.add_handler("mode_%s_%s" % (name, ev), h, priority=10**6)
     base_with_probe = snapshot(m)
+    other_mode = m.modes["mcode" if name == "mplain" else "mplain"]
     accepted_start = accepted_stop = 0
     cycles = 0
     reqs = part["reqs"]
@@ -102,6 +103,11 @@ def body(S, t, part):
             m.events.post("stop_" + name)
         elif rq == "stop_direct":
             mode.stop()
+        elif rq == "start_prio":
+            # explicit priority; a request that is rejected (already active / starting) must not disturb the ordering
+            mode.start(mode_priority=S.int("prio%d" % i, 1, 400))
+        elif rq == "start_other":
+            other_mode.start()
         elif rq == "restart_from_stopped":
             restart_once[0] = True
             if mode.active:
@@ -141,6 +147,9 @@ def body(S, t, part):
                             "active_modes %s, modes that are active %s" % ([x.name for x in m.mode_controller.active_modes], [x.name for x in want]))
     # settle: whatever was requested must complete; then make sure the mode ends stopped
     t.advance_time_and_run(6)
+    if other_mode.active:
+        other_mode.stop()
+        t.advance_time_and_run(3)
     if m.game is not None and part["mode"] == "mgame" and not mode.active and not mode.starting:
         m.game.end_game()
         t.advance_time_and_run(3)
@@ -187,6 +196,8 @@ def scenarios(tier):
             firsts.append(["start_ev", "delayed_control", "stop_ev"])
         for f in firsts:
             parts.append(dict(mode=mode, reqs=f, n=len(f) + (2 if tier == "quick" else 3), alphabet=alpha))
+    for mode in ("mplain", "mwait"):
+        parts.append(dict(mode=mode, reqs=["start_other", "start_prio", "start_prio"], n=4 if tier == "quick" else 6, alphabet=base_alpha + ["start_prio"]))
     galpha = ["start_ev", "stop_ev", "start_direct", "stop_direct", "wait"]
     parts.append(dict(mode="mgame", reqs=["start_ev", "game_start", "start_ev", "expect_active"], n=5, alphabet=galpha))
     parts.append(dict(mode="mgame", reqs=["game_start", "start_ev", "expect_active"], n=5 if tier == "quick" else 6, alphabet=galpha + ["game_end"]))
